@@ -151,6 +151,16 @@ def cases(tier):
               "A$=B$", "A$<\"B\" OR N$=\"\"", "A$+B$=\"HELLOLL\"", "A", "A+B", "A AND B", "LEN(A$)>2 AND ASC(B$)=76", "INT(A/2)=1",
               "A=>B", "A=<B", "INSTR(1,B$,\"AB\")>1"]:
         add("cond", e, "probe")
+    # the same literal spelled in a DATA statement with an empty item (whose numbers the tool turns into strings): the
+    # operand stays a number
+    tail = "\n20 DATA 1,,2,3,4,5,7,8,10,16,0,.5,1E2\n30 READ P,Q,R"
+    for e in ["A+1", "C*3", "2*3", "A^2", "-B+C^2", "A AND 3", "3", "-2", "A/2-1", "INT(A/2)", "ABS(-3)", "1E2+A", ".5*4",
+              "QQ(1)+2", "A-10", "16/8"]:
+        out.append({"fmt": "expr", "kind": "num/assign/data-alias", "ctx": "assign", "ekind": "num", "expr": e, "text": f"10 ZZ={e}" + tail,
+                    "opts": OPTS, "req": "expr " + hexs((f"10 ZZ={e}" + tail).encode())})
+    for e in ["A=1", "A<>2 AND B<3", "A+1=2", "NOT A=3"]:
+        out.append({"fmt": "expr", "kind": "cond/if/data-alias", "ctx": "if", "ekind": "cond", "expr": e, "text": f"10 IF {e} THEN 10" + tail,
+                    "opts": OPTS, "req": "expr " + hexs((f"10 IF {e} THEN 10" + tail).encode())})
     n = 150 if quick else 1500
     for _ in range(n):
         g = EGen(r, max_depth=r.choice([1, 2, 2, 3]), spaces=r.randrange(4) == 0)
